@@ -438,6 +438,8 @@ def fixed_corpus():
     out.append(Def([L('regex', '[^;]+'), L('token', ';')], utf8=False, origin='fixed:bytes-text-loops'))
     out.append(Def([L('regex', '"[^"]*"'), L('regex', '//[^\\n]*', allow_greedy=True), L('regex', '[a-z]+'), L('skip', '[ \\n]')], utf8=False, origin='fixed:bytes-text-loops2'))
     out.append(Def([L('regex', '.+', allow_greedy=True), L('token', '\n')], utf8=False, origin='fixed:bytes-text-loops3'))
+    # a skip with a callback listed before a plain skip (round 29: the plain one must not run the other's callback)
+    out.append(Def([L('skip', 'w+', cb=17), L('skip', ' +'), L('regex', '[a-v]+'), L('token', '='), L('skip', '#+', cb=3), L('skip', '_')], origin='fixed:skip-cb-first'))
     # a plain skip that is a proper prefix of a longer pattern, the longer one cut short by the end of the input (round 28)
     out.append(Def([L('skip', '[ \\t]+'), L('regex', '[a-z]+'), L('regex', '[ \\t]*\\r\\n'), L('regex', ' *;;')], origin='fixed:skip-prefix-eoi'))
     # the same pattern text with and without ignore(case) in one definition (round 28: a cache of parsed patterns keyed without the flag)
